@@ -30,7 +30,7 @@ def boot():
 
 # --------------------------------------------------------------------------- structural dumps
 
-IGNORED_ATTRS = {'_mhash', '_assumptions', '_prop_handler', '_hash'}
+IGNORED_ATTRS = {'_mhash', '_assumptions', '_prop_handler', '_hash', '_coordinates'}   # lazily filled memo attributes
 
 
 def dump(x, depth=0):
@@ -268,10 +268,104 @@ def r_join(p):
     conns = [conns[i] for i in p.get('order', range(len(conns)))]
     ins = [('p%d' % i, o) for i, o in enumerate(ps)] + [('conns', conns), ('patches', ps)]
     b = snap(ins)
+    mb = mapping_state(ps)
     D = Domain.join(ps, conns, p['name'])
     y = D.todict()
     res = [json.dumps(y, sort_keys=True), str(D.interfaces), str(D.boundary), str(D.interior)]
-    return result(res, ins, b)
+    r = result(res, ins, b)
+    ma = mapping_state(ps)
+    if ma != mb:
+        r['mut'] = r['mut'] + ['mappings of the input patches (name, is_plus, is_minus, == identically built mapping, same hash): %s => %s' % (mb, ma)]
+    return r
+
+
+def mapping_state(patches):
+    """the mappings of mapped patches as a caller sees them: flags, and equality with an identically constructed mapping"""
+    from sympde.topology import Mapping
+    out = []
+    for P in patches:
+        M = getattr(P, 'mapping', None)
+        if M is None:
+            continue
+        try:
+            twin = type(M)(str(M.name), dim=int(P.dim)) if type(M) is Mapping else None
+        except Exception:
+            twin = None
+        out.append((str(M.name), bool(getattr(M, 'is_plus', False)), bool(getattr(M, 'is_minus', False)),
+                    None if twin is None else bool(M == twin), None if twin is None else hash(M) == hash(twin)))
+    return out
+
+
+def r_joinlow(p):
+    """two mapped patches D1 = F1(A), D2 = F2(B); optionally `Domain.join([D1, D2])` first; then a form on the single
+    patch D2 is lowered LogicalExpr -> TerminalExpr -> SymbolicExpr with the SAME objects"""
+    from sympy import sin
+    from sympde.topology import Domain, element_of, LogicalExpr, SymbolicExpr
+    from sympde.expr import BilinearForm, integral
+    from sympde.expr.evaluation import TerminalExpr
+    dim = p['dim']
+    D1 = mk_domain(['map', p['maps'][0], 'plain', p['names'][0], dim, 0])
+    D2 = mk_domain(['map', p['maps'][1], 'plain', p['names'][1], dim, 1])
+    ins = [('D1', D1), ('D2', D2)]
+    b = snap(ins)
+    mb = mapping_state([D1, D2])
+    if p.get('join_first'):
+        ornt = {2: (1,), 3: ((1, 1, 1),)}[dim]
+        Domain.join([D1, D2], [((0, 0, 1), (1, 0, -1)) + ornt], p['name'])
+    ma = mapping_state([D1, D2])
+    target = D2 if p.get('side', 'plus') == 'plus' else D1
+    V = mk_space(['S', p['sp'], None], target)
+    u, v = element_of(V, p['fn']), element_of(V, p['fn'] + 't')
+    x = target.coordinates[0]
+    a = BilinearForm((u, v), integral(target, sin(x) * u * v))
+    t = TerminalExpr(LogicalExpr(a, target), target.logical_domain)
+    r = result([SymbolicExpr(t[0].expr), str(t[0].expr)], ins, b)
+    if ma != mb:
+        r['mut'] = r['mut'] + ['mappings of the patches given to Domain.join (name, is_plus, is_minus, == identically built mapping, same hash): %s => %s' % (mb, ma)]
+    return r
+
+
+def r_symprod(p):
+    """symmetric / antisymmetric products whose two operands are built from the SAME functions with different nesting
+    depth (both operands of one class): op(a, b) against op(b, a) in one interpreter"""
+    from sympde.topology import element_of
+    from sympde.calculus import grad, curl, div, rot, dot, inner, cross, laplace
+    from sympde.expr import LinearForm, integral
+    from sympde.expr.evaluation import TerminalExpr
+    O = mk_domain(p['dom'])
+    dim = int(O.dim)
+    V, W = mk_space(['S', p['sp'], None], O), mk_space(['V', p['sp'] + 'v', None], O)
+    u, w = element_of(V, p['fn']), element_of(V, p['fn'] + 't')
+    F = element_of(W, 'F' + p['fn'])
+    pairs = {
+        'gg_lap': lambda: (dot, grad(u), grad(laplace(u)), 1),
+        'cc': lambda: (dot, curl(F), curl(curl(F)), 1),
+        'f_cf': lambda: (dot, F, curl(F), 1),
+        'inner_gg': lambda: (inner, grad(F), grad(grad(div(F))), 1),
+        'gdiv': lambda: (dot, grad(div(F)), grad(div(grad(div(F)))), 1),
+        'cross_cc': lambda: (cross, curl(F), curl(curl(F)), -1),
+    }
+    op, a, b2, sign = pairs[p['pair']]()
+    ops = [a, b2]
+    ops = [ops[i] for i in p.get('order', [0, 1])]
+    ins = [('a', a), ('b', b2)]
+    b = snap(ins)
+    P, Q = op(ops[0], ops[1]), op(ops[1], ops[0])
+    bad = []
+    if sign == 1:
+        if not (P == Q and hash(P) == hash(Q) and str(P) == str(Q)):
+            bad.append('%s vs swapped %s: == %s, same hash %s, same print %s' % (P, Q, P == Q, hash(P) == hash(Q), str(P) == str(Q)))
+        if not (P - Q == 0):
+            bad.append('difference %s is not 0' % (P - Q))
+        if not (LinearForm(w, integral(O, w * P)) == LinearForm(w, integral(O, w * Q))):
+            bad.append('the linear forms built from the two orders differ')
+    else:
+        if not (P + Q == 0):
+            bad.append('antisymmetric product: %s + %s is not 0' % (P, Q))
+    P0 = P if (sign == 1 or list(p.get('order', [0, 1])) == [0, 1]) else -P      # cross(b, a) = -cross(a, b)
+    r = result([P0, [str(k) for k in TerminalExpr(LinearForm(w, integral(O, w * P)), O)] if sign == 1 else None], ins, b)
+    r['bad'] = bad
+    return r
 
 
 def r_comm(p):
@@ -486,7 +580,7 @@ def r_iface(p):
     return result(res, ins, b)
 
 
-RECIPES = {'iface': r_iface, 'amap': r_amap, 'intsum': r_intsum, 'chain': r_chain, 'tkeys': r_tkeys, 'idxmut': r_idxmut, 'tgrad': r_tgrad, 'tvec': r_tvec, 'form': r_form, 'logical': r_logical, 'symbolic': r_symbolic,
+RECIPES = {'joinlow': r_joinlow, 'symprod': r_symprod, 'iface': r_iface, 'amap': r_amap, 'intsum': r_intsum, 'chain': r_chain, 'tkeys': r_tkeys, 'idxmut': r_idxmut, 'tgrad': r_tgrad, 'tvec': r_tvec, 'form': r_form, 'logical': r_logical, 'symbolic': r_symbolic,
            'idxder': r_idxder, 'hodge': r_hodge, 'union': r_union, 'join': r_join, 'comm': r_comm,
            'equation': r_equation, 'mapped': r_mapped}
 
